@@ -14,6 +14,15 @@
  *     declared vectors and the bytecode".
  * Slot contents are symbolic over the value kinds the bodies do not dereference inline (number, nil, boolean) plus valid
  * objects where a body needs one (a fiber for resume/cancel/propagate, a C function and a Janet function for call/tailcall).
+ *
+ * Resume units (-DVV_RESUME=1): the same words, but the frame is SUSPENDED at W and the fiber is resumed with a value the
+ * way janet_continue enters run_vm for a pending fiber (no RESUME_NO_USEVAL / RESUME_NO_SKIP): the value is stored into
+ * register A of W and execution goes on after W.  Such a frame comes out of unmarshal (which only checks that the program
+ * counter is inside the bytecode), so "having passed verification ... can be resumed" must hold for every accepted W.
+ * It does NOT hold on the pinned tree for shapes without a leading slot (NOOP, RETURN_NIL: any operand bits are accepted;
+ * JUMP: the offset overlays register A) nor for a frame suspended at the last instruction (pc + 1 leaves the bytecode):
+ * units vmv.resume.noop / return_nil / jump / return_nil.last fail and are generated disabled, with the Janet-level
+ * reproducer (marshal a suspended fiber, patch pc / one instruction word, unmarshal, resume) in their disabled_reason.
  * All callees that leave the interpreter loop are stubs (their own memory safety is the subject of other units). */
 #include "prelude.h"
 
@@ -23,9 +32,16 @@
 #define VV_NE 2       /* environments_length */
 #define VV_ENVLEN 3   /* length of each captured environment */
 #define VV_NCODE 4
+#ifndef VV_I
 #define VV_I 1        /* index of the instruction under proof */
-
-static uint32_t vv_code[VV_NCODE];
+#endif
+#ifndef VV_RESUME
+#define VV_RESUME 0
+#endif
+/* single-step units: the bytecode object has EXACTLY bytecode_length words.  Resume units (VV_RESUME): one guard word
+ * (a breakpoint) follows the bytecode, standing for whatever memory follows it, so that running off the end is reported by
+ * the "program counter inside the bytecode" obligation instead of making instruction dispatch symbolic */
+static uint32_t vv_code[VV_NCODE + VV_RESUME];
 static JanetFuncDef vv_def;
 static JanetFunction *vv_func;
 /* EXACTLY one frame header + slotcount cells */
@@ -92,8 +108,9 @@ static Janet vv_val(void) {
     return x;
 }
 
-/* pin: 0 = slots symbolic; 1 = every slot nil; 2 = every slot a number (for the conditional jumps, whose branch must be
- * concrete or instruction dispatch becomes symbolic).  resume: 0 = single-step entry; 1 = the fiber is resumed with a value */
+/* pin: 0 = slots symbolic; 1 = every slot nil; 2 = every slot a number; 3 = every slot a C function; 4 = every slot a Janet
+ * function (for the conditional jumps and the calls, where the KIND of a slot decides the next program counter: it must be
+ * concrete or instruction dispatch becomes symbolic; payloads stay symbolic).  resume: 0 = single-step entry; 1 = the fiber is resumed with a value */
 static void vv_case(uint32_t word, int accept, int pin, int resume) {
     for (int i = 0; i < VV_NCODE; i++) vv_code[i] = JOP_RETURN_NIL;
     vv_code[VV_I] = word;
@@ -114,6 +131,9 @@ static void vv_case(uint32_t word, int accept, int pin, int resume) {
     __CPROVER_assume(v == 0);
     /* breakpoints on every other word (debug/break after verification) */
     for (int i = 0; i < VV_NCODE; i++) if (i != VV_I) vv_code[i] |= 0x80;
+#if VV_RESUME
+    vv_code[VV_NCODE] = 0x80 | JOP_NOOP;
+#endif
 
     for (int i = 0; i < VV_NC; i++) vv_consts[i] = vv_val();
     vv_nested_envs[0] = -1; vv_nested_envs[1] = 1;
@@ -159,6 +179,8 @@ static void vv_case(uint32_t word, int accept, int pin, int resume) {
         vv_mem.slots[i] = vv_val();
         if (pin == 1) { vv_mem.slots[i].type = JANET_NIL; vv_mem.slots[i].as.u64 = 0; }
         if (pin == 2) { vv_mem.slots[i].type = JANET_NUMBER; }
+        if (pin == 3) { vv_mem.slots[i].type = JANET_CFUNCTION; vv_mem.slots[i].as.u64 = 0; vv_mem.slots[i].as.pointer = (void *) vv_cfun; }
+        if (pin == 4) { vv_mem.slots[i].type = JANET_FUNCTION; vv_mem.slots[i].as.u64 = 0; vv_mem.slots[i].as.pointer = &vv_callee; }
     }
     vv_child.flags = nd_u32();
     __CPROVER_assume(((vv_child.flags & JANET_FIBER_STATUS_MASK) >> JANET_FIBER_STATUS_OFFSET) <= JANET_STATUS_NEW);
@@ -174,17 +196,20 @@ static void vv_case(uint32_t word, int accept, int pin, int resume) {
     JanetSignal sig = run_vm(&vv_fiber, in);
     /* whatever the instruction did, the interpreter is still inside the function */
     __CPROVER_assert(vv_fiber.data == vv_data, "vmv: the stack block is the fiber's stack");
-    __CPROVER_assert((vv_mem.fr.pc >= vv_code && vv_mem.fr.pc < vv_code + VV_NCODE) || vv_mem.fr.pc == vv_callee_code, "vmv: the program counter stays inside the bytecode (of this function, or at the start of a called function)");
+    __CPROVER_assert(vv_mem.fr.pc == vv_callee_code || (__CPROVER_same_object(vv_mem.fr.pc, vv_code) && __CPROVER_POINTER_OFFSET(vv_mem.fr.pc) < VV_NCODE * sizeof(uint32_t)),
+                     "vmv: the program counter stays inside the bytecode (of this function, or at the start of a called function)");
     (void) sig;
     REACH("vmv: an accepted word was executed");
 }
 
+#if defined(VV_CALLS)
+/* CALL / TAILCALL: callee kinds enumerated: not callable (raises), C function, Janet function */
+#define VV_W(word, acc) do { if (k == n) vv_case((uint32_t)(word), (acc), 2, VV_RESUME); n++; if (k == n) vv_case((uint32_t)(word), (acc), 3, VV_RESUME); n++; if (k == n) vv_case((uint32_t)(word), (acc), 4, VV_RESUME); n++; } while (0)
+#else
 #define VV_W(word, acc) do { if (k == n) vv_case((uint32_t)(word), (acc), 0, VV_RESUME); n++; } while (0)
+#endif
 /* conditional jumps: once with falsey, once with truthy slots */
 #define VV_WJ(word, acc) do { if (k == n) vv_case((uint32_t)(word), (acc), 1, VV_RESUME); n++; if (k == n) vv_case((uint32_t)(word), (acc), 2, VV_RESUME); n++; } while (0)
-#ifndef VV_RESUME
-#define VV_RESUME 0
-#endif
 #define W3(a, b, c) ((uint32_t) VV_OP | ((uint32_t)(a) << 8) | ((uint32_t)(b) << 16) | ((uint32_t)(c) << 24))
 #define WE(a, e) ((uint32_t) VV_OP | ((uint32_t)(a) << 8) | (((uint32_t)(e) & 0xFFFFu) << 16))
 #define WD(d) ((uint32_t) VV_OP | (((uint32_t)(d) & 0xFFFFFFu) << 8))
